@@ -49,7 +49,23 @@ impl State {
 #[derive(Clone, Debug, Default)]
 pub struct Judgement {
     pub v: BTreeSet<ErrClass>,
+    /// the first don't-care zone that applies (reported in evidence / details)
     pub zone: Option<&'static str>,
+    /// every zone that applies: a call can sit in several at once (e.g. a timestamp beyond 2^53
+    /// ticks AND a first frame whose header is not decidable)
+    pub zones: Vec<&'static str>,
+}
+
+impl Judgement {
+    pub fn add_zone(&mut self, z: &'static str) {
+        self.zone.get_or_insert(z);
+        if !self.zones.contains(&z) {
+            self.zones.push(z);
+        }
+    }
+    fn zone_allows(&self, c: ErrClass) -> bool {
+        self.zones.iter().any(|z| zone_allows(z, c))
+    }
 }
 
 #[derive(Clone, Copy, Debug, PartialEq, Eq)]
@@ -176,7 +192,7 @@ fn gap_judge(prev: &Ticks, cur: &Ticks, j: &mut Judgement) {
         if cl > ph && cl - ph > max {
             j.v.insert(ErrClass::GapOverflow);
         } else if ch > pl && ch - pl > max {
-            j.zone.get_or_insert("Z2b gap within one tick of 2^32");
+            j.add_zone("Z2b gap within one tick of 2^32");
         }
     }
 }
@@ -209,11 +225,11 @@ fn judge_video(cfg: &Cfg, st: &State, pts: f64, dts: f64, explicit_dts: bool, da
     if ts_ok {
         let (tp, td) = (ticks(pts), ticks(dts));
         if tp.is_huge() || td.is_huge() {
-            j.zone.get_or_insert("Z2 timestamp at/over 2^53 ticks");
+            j.add_zone("Z2 timestamp at/over 2^53 ticks");
         }
         if let (Some(p), Some(d)) = (tp.lo(), td.lo()) {
             if (p as i128 - d as i128).abs() >= (1i128 << 31) - 1 {
-                j.zone.get_or_insert("Z12 |pts-dts| at/over 2^31 ticks (C16)");
+                j.add_zone("Z12 |pts-dts| at/over 2^31 ticks (C16)");
             }
         }
         if !explicit_dts {
@@ -231,9 +247,9 @@ fn judge_video(cfg: &Cfg, st: &State, pts: f64, dts: f64, explicit_dts: bool, da
                 match (prev_t.hi(), td.lo(), prev_t.lo(), td.hi()) {
                     (Some(ph), Some(cl), Some(pl), Some(ch)) => {
                         if ch <= pl {
-                            j.zone.get_or_insert("Z1 increasing in seconds, equal in ticks");
+                            j.add_zone("Z1 increasing in seconds, equal in ticks");
                         } else if cl <= ph {
-                            j.zone.get_or_insert("Z1 increasing in seconds, equal in ticks (tie)");
+                            j.add_zone("Z1 increasing in seconds, equal in ticks (tie)");
                         }
                     }
                     _ => {}
@@ -249,12 +265,12 @@ fn judge_video(cfg: &Cfg, st: &State, pts: f64, dts: f64, explicit_dts: bool, da
             }
             Some(true) => {}
             None => {
-                j.zone.get_or_insert("Z9 key decision of encode_video on unclassifiable bytes");
+                j.add_zone("Z9 key decision of encode_video on unclassifiable bytes");
             }
         }
         if !data.is_empty() {
             if matches!(cfg.vcodec, H264 | H265) && units(data).iter().any(|u| u.len() > 65_535) {
-                j.zone.get_or_insert("Z13 NAL unit longer than 65535 bytes in the first frame (C16)");
+                j.add_zone("Z13 NAL unit longer than 65535 bytes in the first frame (C16)");
             }
             match carries_config(cfg.vcodec, data) {
                 HasCfg::Yes => {}
@@ -262,7 +278,7 @@ fn judge_video(cfg: &Cfg, st: &State, pts: f64, dts: f64, explicit_dts: bool, da
                     j.v.insert(C::FirstMissingConfig);
                 }
                 HasCfg::Unclear => {
-                    j.zone.get_or_insert("Z7 first frame has a header whose deeper syntax is not decidable");
+                    j.add_zone("Z7 first frame has a header whose deeper syntax is not decidable");
                 }
             }
         }
@@ -292,7 +308,7 @@ fn judge_audio(cfg: &Cfg, st: &State, pts: f64, data: &[u8], j: &mut Judgement) 
     if ts_ok {
         let t = ticks(pts);
         if t.is_huge() {
-            j.zone.get_or_insert("Z2 timestamp at/over 2^53 ticks");
+            j.add_zone("Z2 timestamp at/over 2^53 ticks");
         }
         if let Some(last) = st.last_a_pts {
             if pts < last {
@@ -329,7 +345,7 @@ fn judge_audio(cfg: &Cfg, st: &State, pts: f64, data: &[u8], j: &mut Judgement) 
             match opus(data) {
                 OpusVerdict::Valid => {}
                 OpusVerdict::DontCare => {
-                    j.zone.get_or_insert("Z5 Opus packet malformed beyond TOC/frame count");
+                    j.add_zone("Z5 Opus packet malformed beyond TOC/frame count");
                 }
                 OpusVerdict::Invalid => {
                     j.v.insert(C::OpusFraming);
@@ -411,7 +427,7 @@ pub fn check(h: &History, ex: &Exec, obs: &mut Obs) -> Vec<Violation> {
         }
         let mut j = Judgement::default();
         if st.failed_finish {
-            j.zone = Some("Z11 any call after a failed finish");
+            j.add_zone("Z11 any call after a failed finish");
         }
         // the call as the model sees it
         enum K {
@@ -451,7 +467,7 @@ pub fn check(h: &History, ex: &Exec, obs: &mut Obs) -> Vec<Violation> {
                     j.v.insert(C::Finished);
                 }
                 if let Some(z) = finish_zone(cfg, &st) {
-                    j.zone.get_or_insert(z);
+                    j.add_zone(z);
                 }
                 K::F
             }
@@ -459,10 +475,10 @@ pub fn check(h: &History, ex: &Exec, obs: &mut Obs) -> Vec<Violation> {
         // verdict
         let state_name = st.name();
         let ok = res.is_ok();
-        if let Some(z) = j.zone {
+        for z in &j.zones {
             obs.count(&format!("zone:{}", z), 1);
         }
-        let uncovered: Vec<ErrClass> = j.v.iter().copied().filter(|c| j.zone.map(|z| !zone_allows(z, *c)).unwrap_or(true)).collect();
+        let uncovered: Vec<ErrClass> = j.v.iter().copied().filter(|c| !j.zone_allows(*c)).collect();
         let vs = |v: &BTreeSet<ErrClass>| v.iter().map(|c| format!("{:?}", c)).collect::<Vec<_>>().join("+");
         if ok {
             if !uncovered.is_empty() {
@@ -472,7 +488,7 @@ pub fn check(h: &History, ex: &Exec, obs: &mut Obs) -> Vec<Violation> {
                 ));
             }
         } else if let Res::Err(e) = res {
-            let fine = class_matches(e.class, &j.v) || j.zone.map(|z| zone_allows(z, e.class)).unwrap_or(false);
+            let fine = class_matches(e.class, &j.v) || j.zone_allows(e.class);
             // one narrow, separately identified case: a first AV1 keyframe whose (specification
             // valid) sequence header is monochrome
             let av1_mono = !fine
